@@ -94,3 +94,130 @@ Theorem C14_ring_example :
   Forall (@ring_op_ok Z) c14_ring_example_ops.
 Proof. exact c14_ring_example. Qed.
 Print Assumptions C14_ring_example.
+
+(* ------------------------------ packet buffer ------------------------------ *)
+From SV Require Import Model.PacketBuf Proofs.PacketBufProofs.
+
+(* Every packet buffer reachable from new() by any op sequence (any metadata / payload capacity,
+   including 0) satisfies the invariant: records tile the payload queue, no record straddles the end
+   of the payload storage, every padding record is followed by a packet. *)
+Theorem C14_pb_invariant_all_sequences : forall (H : Type) mcap pcap (ops : list (pb_op H)) b,
+  Forall (@pb_op_ok H) ops -> pb_run (pb_new H mcap pcap) ops = Some b ->
+  pb_inv b.
+Proof. exact c14_pb_invariant. Qed.
+Print Assumptions C14_pb_invariant_all_sequences.
+
+(* One step refines the FIFO queue of (header, payload) pairs [pq_rel]; the only panic is the ring's
+   assert when the callback of enqueue_with_infallible claims more than the slice it was given. *)
+Theorem C14_pb_refines_queue : forall (H : Type) (b : pbuf H) (op : pb_op H),
+  pb_inv b -> pb_op_ok op ->
+  match pb_step b op with
+  | Ok (b', out) => pb_inv b' /\ pq_rel (pb_abs b) op out (pb_abs b')
+  | Err _ => False
+  | Panic => match op with POEnqInf max _ _ k => max < k | _ => False end
+  end.
+Proof. exact pb_step_refines. Qed.
+Print Assumptions C14_pb_refines_queue.
+
+(* enqueue: refused (state unchanged) or the returned payload slice has exactly the requested size and
+   the pair is appended; refusal happens exactly when make_room refuses. *)
+Theorem C14_pb_enqueue : forall (H : Type) (b : pbuf H) size h w, pb_inv b -> 0 <= size ->
+  exists b' res, pb_enqueue b size h w = Ok (b', res) /\
+    (res = None <-> exists b1, pb_make_room b size = Ok (b1, true)) /\
+    match res with
+    | None => b' = b
+    | Some old => zlen old = size /\ pb_inv b' /\ pb_abs b' = pb_abs b ++ [(h, overlay w old)]
+    end.
+Proof. exact pb_enqueue_spec. Qed.
+Print Assumptions C14_pb_enqueue.
+
+Theorem C14_pb_enqueue_with_infallible : forall (H : Type) (b : pbuf H) max h (f : list Z -> list Z * Z),
+  pb_inv b -> 0 <= max -> (forall buf, 0 <= snd (f buf)) ->
+  (exists b' res, pb_enqueue_with_infallible b max h f = Ok (b', res) /\
+     (res = None <-> exists b1, pb_make_room b max = Ok (b1, true)) /\
+     match res with
+     | None => b' = b
+     | Some (k, seen) =>
+         zlen seen = max /\ k = snd (f seen) /\ pb_inv b' /\
+         exists pl, zlen pl = k /\ pb_abs b' = pb_abs b ++ [(h, pl)] /\
+           (k <= max -> pl = firstn (Z.to_nat k) (overlay (fst (f seen)) seen))
+     end) \/
+  (pb_enqueue_with_infallible b max h f = Panic /\
+   exists seen, zlen seen = max /\ max < snd (f seen)).
+Proof. exact pb_enqueue_with_infallible_spec. Qed.
+Print Assumptions C14_pb_enqueue_with_infallible.
+
+(* a refused enqueue (either interface) leaves the state, hence the queued packets, unchanged *)
+Theorem C14_pb_refused_unchanged : forall (H : Type) (b b' : pbuf H) size h,
+  pb_inv b -> 0 <= size ->
+  (forall w, pb_enqueue b size h w = Ok (b', None) -> b' = b) /\
+  (forall f, (forall buf, 0 <= snd (f buf)) ->
+     pb_enqueue_with_infallible b size h f = Ok (b', None) -> b' = b).
+Proof. exact pb_refused_unchanged. Qed.
+Print Assumptions C14_pb_refused_unchanged.
+
+(* dequeue returns the oldest pair, payload contiguous and of exact size (it is the recorded list) *)
+Theorem C14_pb_dequeue : forall (H : Type) (b : pbuf H), pb_inv b ->
+  exists b' res, pb_dequeue b = Ok (b', res) /\ pb_inv b' /\
+    match res with
+    | None => pb_abs b = [] /\ pb_abs b' = []
+    | Some (h, p) => pb_abs b = (h, p) :: pb_abs b'
+    end.
+Proof. exact pb_dequeue_spec. Qed.
+Print Assumptions C14_pb_dequeue.
+
+Theorem C14_pb_dequeue_with : forall (H : Type) (b : pbuf H) (f : H -> list Z -> bool), pb_inv b ->
+  exists b' res, pb_dequeue_with b f = Ok (b', res) /\ pb_inv b' /\
+    match res with
+    | None => pb_abs b = [] /\ pb_abs b' = []
+    | Some (h, p, acc) =>
+        acc = f h p /\
+        exists rest, pb_abs b = (h, p) :: rest /\
+                     pb_abs b' = if acc then rest else (h, p) :: rest
+    end.
+Proof. exact pb_dequeue_with_spec. Qed.
+Print Assumptions C14_pb_dequeue_with.
+
+Theorem C14_pb_dequeue_with_decline_unchanged : forall (H : Type) (b b' : pbuf H) f res,
+  pb_inv b -> (forall h p, f h p = false) ->
+  pb_dequeue_with b f = Ok (b', res) -> pb_inv b' /\ pb_abs b' = pb_abs b.
+Proof. exact pb_dequeue_with_decline_unchanged. Qed.
+Print Assumptions C14_pb_dequeue_with_decline_unchanged.
+
+Theorem C14_pb_peek : forall (H : Type) (b : pbuf H), pb_inv b ->
+  exists b' res, pb_peek b = Ok (b', res) /\ pb_inv b' /\ pb_abs b' = pb_abs b /\
+    match res with
+    | None => pb_abs b = []
+    | Some (h, p) => exists rest, pb_abs b = (h, p) :: rest
+    end.
+Proof. exact pb_peek_spec. Qed.
+Print Assumptions C14_pb_peek.
+
+Theorem C14_pb_reset : forall (H : Type) (b : pbuf H), pb_inv b ->
+  pb_inv (pb_reset b) /\ pb_abs (pb_reset b) = [].
+Proof. exact pb_reset_spec. Qed.
+Print Assumptions C14_pb_reset.
+
+(* An empty packet buffer (no packet queued) with at least one metadata slot accepts, through BOTH
+   enqueue interfaces, any packet up to its payload capacity.  (False before the fixes for D1 and for
+   the dangling padding record: see known_findings.txt.) *)
+Theorem C14_pb_empty_accepts : forall (H : Type) (b : pbuf H) size h, pb_inv b -> pb_abs b = [] ->
+  1 <= pb_packet_capacity b -> 0 <= size <= pb_payload_capacity b ->
+  (forall w, exists b' old, pb_enqueue b size h w = Ok (b', Some old) /\
+     pb_inv b' /\ pb_abs b' = [(h, overlay w old)] /\ zlen old = size) /\
+  (forall f, (forall buf, 0 <= snd (f buf) <= size) ->
+     exists b' k seen, pb_enqueue_with_infallible b size h f = Ok (b', Some (k, seen)) /\
+       pb_inv b' /\ zlen seen = size /\ k = snd (f seen) /\
+       pb_abs b' = [(h, firstn (Z.to_nat k) (overlay (fst (f seen)) seen))]).
+Proof. exact pb_empty_accepts. Qed.
+Print Assumptions C14_pb_empty_accepts.
+
+(* Non-vacuity: a reachable packet buffer whose payload ring wrapped around with a padding record. *)
+Theorem C14_pb_example :
+  exists b, pb_run (pb_new Z 4 16) c14_pb_example_ops = Some b /\
+    ring_abs (pb_meta b) = [pm_packet 8 2; pm_padding Z 2; pm_packet 4 3] /\
+    r_read (pb_payload b) = 6 /\ r_len (pb_payload b) = 14 /\
+    pb_abs b = [(2, [11; 12; 13; 14; 15; 16; 17; 18]); (3, [21; 22; 23; 24])] /\
+    pb_inv b /\ Forall (@pb_op_ok Z) c14_pb_example_ops.
+Proof. exact c14_pb_example. Qed.
+Print Assumptions C14_pb_example.
